@@ -224,11 +224,14 @@ def scenario_case(ctx, case):
             ctx.label('token_profile_set_after_construction')
         try:
             if entry == 'status':
-                conn.status(
-                    handle_status={'default': None, 'fn': status_calls.append,
-                                   'false': False}[hs],
-                    handle_ping={'default': None, 'fn': ping_calls.append,
-                                 'false': False}[hp])
+                hs_v = {'default': None, 'fn': status_calls.append,
+                        'false': False}[hs]
+                hp_v = {'default': None, 'fn': ping_calls.append,
+                        'false': False}[hp]
+                if port % 2:
+                    conn.status(hs_v, hp_v)        # by position
+                else:
+                    conn.status(handle_status=hs_v, handle_ping=hp_v)
             else:
                 conn.connect()
         except Exception as e:
